@@ -19,6 +19,7 @@
 package main
 
 import (
+	"bytes"
 	"encoding/hex"
 	"encoding/json"
 	"fmt"
@@ -30,6 +31,8 @@ import (
 	"sort"
 	"strings"
 	"sync"
+	"sync/atomic"
+	"syscall"
 	"time"
 
 	"github.com/glowlabs-org/gca-backend/glow"
@@ -154,6 +157,8 @@ func main() {
 			"bulk delivery goes through VerifInject (the function the UDP listener calls); a sample of sequences goes through the real socket",
 			"fault sequences: one delivery per sequence happens while equipment-reports.dat cannot be opened (ENOENT); the published value must still follow the set of reports received; what a restart reconstructs after a lost append is not judged here",
 			"restart sequences: the server is restarted (clock unchanged, now-offset <= 3200 so that neither the shutdown nor the start-up rotates the window) in the middle of an interleaved sequence; the set rule is judged for the reports re-read from the log and for those received afterwards",
+			"inflight sequences: K datagrams for one cell are handled while the report log is a named pipe (appends park until the harness reads); the 100 ms pause after all handlers entered only widens the window",
+			"clock sequences: a packet delivered while its slot is more than 432 slots ahead of the clock is not a valid report (must change nothing); the identical packet delivered again after the clock advanced is",
 			"the race-variant stress batch judges only the final values (function of the delivered set); race reports are recorded, not judged, because the property does not claim race freedom",
 		},
 		Plan:          plan,
@@ -198,6 +203,8 @@ func plan(tier string, seed int64) []run.Batch {
 		add("burst", 60, 6, "")
 		add("fault", 400, 8, "")
 		add("restart", 100, 8, "")
+		add("inflight", 60, 6, "")
+		add("clock", 300, 4, "")
 		add("stress", 400, 1, "race")
 	} else {
 		add("exh", 0, 8, "")
@@ -206,6 +213,8 @@ func plan(tier string, seed int64) []run.Batch {
 		add("burst", 30, 2, "")
 		add("fault", 150, 2, "")
 		add("restart", 25, 2, "")
+		add("inflight", 30, 2, "")
+		add("clock", 100, 2, "")
 		add("stress", 120, 1, "race")
 	}
 	return bs
@@ -248,7 +257,7 @@ func post(c *ev.Check, outs []*run.Outcome) {
 		return
 	}
 	// positive controls: the monitor must have seen every kind of transition
-	for _, k := range []string{"obs.single_value", "obs.replay_kept", "obs.equivocation_ban", "obs.overcapacity_ban", "obs.banned_stays", "obs.negative_published", "obs.limit_published", "obs.resigned_ban", "burst.judged", "fault.on_banning_report", "restart.sequences", "restart.overcapacity_after_restart",
+	for _, k := range []string{"obs.single_value", "obs.replay_kept", "obs.equivocation_ban", "obs.overcapacity_ban", "obs.banned_stays", "obs.negative_published", "obs.limit_published", "obs.resigned_ban", "burst.judged", "fault.on_banning_report", "restart.sequences", "restart.overcapacity_after_restart", "inflight.identical", "clock.early_deliveries",
 		"via_socket", "via_hook", "surface.stats", "surface.sync", "surface.recent", "perm.classes_compared", "rand.sequences", "stress.cells"} {
 		c.Require(k, 1)
 	}
@@ -1234,6 +1243,242 @@ func (e *env) runRandom(restartMid bool) bool {
 	return e.r.NumViolations() <= 20
 }
 
+// ---------------------------------------------------------------- several copies in flight while the log append is slow
+
+var inflightArrived atomic.Int64
+var inflightHookOnce sync.Once
+
+// runInflight: K datagrams for one fresh cell are handled at the same time while the append to
+// equipment-reports.dat cannot complete (the log is a named pipe until the harness opens its reading end, so every
+// handler runs as far as the server's locking lets it before any append returns). The published value is the
+// function of the SET received: K identical copies publish the report's value (and are logged once), different
+// reports ban the slot.
+func (e *env) runInflight() bool {
+	if !e.needWorld(1) {
+		return false
+	}
+	inflightHookOnce.Do(func() {
+		server.VerifSetHook("udp.ready", func(*server.GCAServer) { inflightArrived.Add(1) })
+	})
+	e.seqN++
+	d := e.devs[e.rng.Intn(len(e.devs))]
+	c := e.freshCell(d)
+	now := e.setClockFor(c.slot, c.slot)
+	// the multiset: mostly identical copies of one within-capacity report
+	first := []letter{Lv, Lw, Llim, Lneg63, Lneg5, L2, L3}[e.rng.Intn(7)]
+	k := 2 + e.rng.Intn(3)
+	letters := make([]letter, k)
+	identical := e.rng.Intn(4) != 0
+	for i := range letters {
+		letters[i] = first
+		if !identical && i > 0 {
+			letters[i] = sigma10[e.rng.Intn(len(sigma10))]
+		}
+	}
+	var dgs [][]byte
+	var reps []refenc.Report
+	for _, l := range letters {
+		rp := e.mk(c, l)
+		reps = append(reps, rp)
+		dgs = append(dgs, rp.Bytes())
+		c.names = append(c.names, l.String())
+		c.sent = append(c.sent, hex.EncodeToString(rp.Bytes()))
+	}
+	socket := e.seqN%3 == 0
+	path := filepath.Join(e.w.Dir, "equipment-reports.dat")
+	old, err := os.ReadFile(path)
+	if err != nil {
+		e.r.Inconc("inflight: " + err.Error())
+		return false
+	}
+	before := e.snap
+	run.Op("inflight: %d datagrams [%s] for dev=%d slot=%d now=%d socket=%v while the report log is a pipe", k, strings.Join(c.names, " "), d.ID, c.slot, now, socket)
+	os.Remove(path)
+	if err := syscall.Mkfifo(path, 0644); err != nil {
+		os.WriteFile(path, old, 0644)
+		e.r.Inconc("inflight: mkfifo: " + err.Error())
+		return false
+	}
+	arrivedBefore := inflightArrived.Load()
+	done := make(chan struct{})
+	var start uint64
+	if socket {
+		start = e.udp.Begin()
+		for _, b := range dgs {
+			e.udp.Write(b)
+		}
+	} else {
+		var wg sync.WaitGroup
+		for _, b := range dgs {
+			wg.Add(1)
+			go func(b []byte) { defer wg.Done(); e.w.Inject(b) }(b)
+		}
+		go func() { wg.Wait(); close(done) }()
+	}
+	// all K handlers entered (logical), then a pause that only widens the window
+	for i := 0; i < 5000 && inflightArrived.Load() < arrivedBefore+int64(k); i++ {
+		time.Sleep(time.Millisecond)
+	}
+	time.Sleep(100 * time.Millisecond)
+	fd, err := syscall.Open(path, syscall.O_RDONLY|syscall.O_NONBLOCK, 0)
+	if err != nil {
+		e.r.Inconc("inflight: open pipe: " + err.Error())
+		e.dead = true
+		return false
+	}
+	if socket {
+		go func() {
+			if e.udp.Barrier(start, k) {
+				close(done)
+			}
+		}()
+	}
+	var drained []byte
+	buf := make([]byte, 1<<16)
+	finished, lost := false, false
+	deadline := time.Now().Add(15 * time.Second)
+	for {
+		n, _ := syscall.Read(fd, buf)
+		if n > 0 {
+			drained = append(drained, buf[:n]...)
+			continue
+		}
+		if finished {
+			break
+		}
+		select {
+		case <-done:
+			finished = true
+		default:
+			if time.Now().After(deadline) {
+				finished, lost = true, true
+			}
+			time.Sleep(300 * time.Microsecond)
+		}
+	}
+	syscall.Close(fd)
+	os.Remove(path)
+	os.WriteFile(path, append(append([]byte(nil), old...), drained...), 0644)
+	if lost {
+		e.r.Count("inflight.unjudged", 1)
+		e.dead = !socket // injected handlers that never return: do not go on with this server
+		e.snap = e.w.S.VerifSnapshot(true)
+		return !e.dead
+	}
+	for _, rp := range reps {
+		c.m.add(rp)
+	}
+	if socket {
+		e.r.Count("via_socket", int64(k))
+	} else {
+		e.r.Count("via_hook", int64(k))
+	}
+	after := e.w.S.VerifSnapshot(true)
+	e.snap = after
+	got := after.Reports[d.ID][c.idx]
+	e.judge(c, got, now, fmt.Sprintf("after %d datagrams handled at the same time", k))
+	if identical {
+		if len(drained) != 80 || !bytes.Equal(drained, dgs[0]) {
+			e.r.Violationf("inflight:replay-logged-more-than-once", c.replay(now, e.offset), "%d identical copies in flight: the report log grew by %d bytes (one accepted report is one 80-byte record)", k, len(drained))
+		}
+		e.r.Count("inflight.identical", 1)
+	}
+	e.compareWhole(before, after, []*cell{c}, now, "datagrams handled at the same time")
+	e.finish(c, got.PowerOutput)
+	// a later replay changes nothing
+	if !e.deliver(c, reps[0], letters[0].String(), false, now) {
+		return false
+	}
+	e.snap = e.w.S.VerifSnapshot(true)
+	e.r.Eval(1)
+	e.r.Count("inflight.sequences", 1)
+	e.r.Nontrivial("inflight:" + strings.Join(c.names, " "))
+	return e.r.NumViolations() <= 20
+}
+
+// ---------------------------------------------------------------- early delivery, clock advance, redelivery
+
+// runClockSeq: some deliveries of a sequence happen while the slot is still more than 432 slots ahead of the
+// clock (not acceptable: nothing may change); later the clock has advanced and the SAME packets arrive again:
+// now they are valid reports received, and the set rule applies to them.
+func (e *env) runClockSeq() bool {
+	if !e.needWorld(1) {
+		return false
+	}
+	e.seqN++
+	d := e.devs[e.rng.Intn(len(e.devs))]
+	var c *cell
+	for tries := 0; tries < 50; tries++ { // a slot that can be "too early" with a clock >= offset
+		if len(d.free) == 0 {
+			return e.newWorld()
+		}
+		c = e.freshCell(d)
+		if c.idx >= 440 {
+			break
+		}
+		c = nil
+	}
+	if c == nil {
+		return true
+	}
+	now := e.setClockFor(c.slot, c.slot)
+	earlyNow := c.slot - 433 - uint32(e.rng.Intn(3))
+	if earlyNow < e.offset {
+		earlyNow = e.offset
+	}
+	n := 1 + e.rng.Intn(3)
+	type step struct {
+		l     letter
+		early bool
+	}
+	var steps []step
+	for i := 0; i < n; i++ {
+		steps = append(steps, step{sigma10[e.rng.Intn(len(sigma10))], e.rng.Intn(2) == 0})
+	}
+	steps[0].early = true
+	for i := 0; i < n; i++ { // every packet that came too early comes again in time
+		if steps[i].early {
+			steps = append(steps, step{steps[i].l, false})
+		}
+	}
+	if e.rng.Intn(2) == 0 {
+		steps = append(steps, step{steps[0].l, false}) // and once more as a replay
+	}
+	before := e.snap
+	for _, st := range steps {
+		rp := e.mk(c, st.l)
+		if !st.early {
+			drv.SetClock(now)
+			if !e.deliver(c, rp, st.l.String(), e.rng.Intn(6) == 0, now) {
+				return false
+			}
+			continue
+		}
+		drv.SetClock(earlyNow)
+		prev, _, _, _ := e.w.S.VerifSlot(d.ID, c.idx)
+		run.Op("deliver EARLY dev=%d slot=%d now=%d offset=%d letter=%s bytes=%x", d.ID, c.slot, earlyNow, e.offset, st.l, rp.Bytes())
+		e.w.Inject(rp.Bytes())
+		c.names = append(c.names, st.l.String()+"(early)")
+		cur, _, _, _ := e.w.S.VerifSlot(d.ID, c.idx)
+		if cur != prev {
+			e.r.Violationf("early-report-changed-state", c.replay(earlyNow, e.offset), "a report for slot %d delivered at clock %d (more than 432 slots ahead) changed the slot", c.slot, earlyNow)
+		}
+		e.r.Count("clock.early_deliveries", 1)
+	}
+	drv.SetClock(now)
+	after := e.w.S.VerifSnapshot(true)
+	e.snap = after
+	got := after.Reports[d.ID][c.idx]
+	e.judge(c, got, now, "in the snapshot after early deliveries, a clock advance and redeliveries")
+	e.compareWhole(before, after, []*cell{c}, now, "sequence with early deliveries")
+	e.finish(c, got.PowerOutput)
+	e.surfaces(after, []*cell{c}, e.seqN%8 == 0, now)
+	e.r.Eval(1)
+	e.r.Count("clock.sequences", 1)
+	e.r.Nontrivial("clock:" + strings.Join(c.names, " "))
+	return e.r.NumViolations() <= 20
+}
+
 // ---------------------------------------------------------------- report log unavailable for one delivery
 
 // runFaultSeq plays a sequence in which one delivery (preferably the one that
@@ -1631,6 +1876,18 @@ func child(b run.Batch, r *ev.Result) {
 		e.ndev = 3
 		for i := 0; i < b.N; i++ {
 			if !e.runRandom(false) {
+				break
+			}
+		}
+	case "inflight":
+		for i := 0; i < b.N; i++ {
+			if !e.runInflight() {
+				break
+			}
+		}
+	case "clock":
+		for i := 0; i < b.N; i++ {
+			if !e.runClockSeq() {
 				break
 			}
 		}
